@@ -45,15 +45,17 @@ pub struct M {
 }
 
 fn scopes() -> Vec<Sc> {
-    vec![Sc::All, Sc::Build, Sc::Launch, Sc::Process("p".into())]
+    // the process type is called like one of the fixed scopes: process types and the scopes all /
+    // build / launch are different name spaces
+    vec![Sc::All, Sc::Build, Sc::Launch, Sc::Process("launch".into())]
 }
 fn query_scopes() -> Vec<Sc> {
     vec![
         Sc::All,
         Sc::Build,
         Sc::Launch,
-        Sc::Process("p".into()),
-        Sc::Process("q".into()),
+        Sc::Process("launch".into()),
+        Sc::Process("all".into()),
     ]
 }
 fn start_envs() -> Vec<PlainEnv> {
@@ -158,7 +160,7 @@ impl Model for M {
         if self.stacks {
             // complete per-name stacks: every subset of behaviours in `all` x every subset in one
             // specific scope, distinct values
-            for spec in [Sc::Build, Sc::Launch, Sc::Process("p".into())] {
+            for spec in [Sc::Build, Sc::Launch, Sc::Process("launch".into())] {
                 for m1 in 0u32..32 {
                     for m2 in 0u32..32 {
                         if m1 == 0 && m2 == 0 {
@@ -218,8 +220,8 @@ pub fn run(args: &Args) {
         rep.finish();
     }
     // the third value is not valid UTF-8: values are byte strings and must be carried unchanged
-    const FULL: &[&[u8]] = &[b"", b"x", b"\xffy"];
-    const REDUCED: &[&[u8]] = &[b"", b"x"];
+    const FULL: &[&[u8]] = &[b"", b"x ", b"\xffy"];
+    const REDUCED: &[&[u8]] = &[b"", b"x "];
     let depth = 3;
     // phase 1: BFS over insert sequences from the empty environment
     let m = M { depth, stacks: false, values: FULL };
@@ -249,7 +251,7 @@ pub fn run(args: &Args) {
     // non-trivial = states with at least one entry (every one of them has >= 1 query whose result differs from the start env or tests non-interference)
     rep.cov("distinct_nontrivial", r.states + r2.states + r3s - 2);
     rep.cov("rule", "states = distinct abstract maps (scope,behaviour,name)->value reached by real LayerEnv::insert sequences (BFS from empty to the depth bound; plus all 3x(2^5x2^5-1) behaviour stacks on one name and one further insert); each state is evaluated for 5 query scopes x 4 starting environments against the reference rules; non-trivial = non-empty environment");
-    rep.cov("bound", json!({"insert_depth": depth, "alphabet": "4 scopes x 5 behaviours x names {X,PATH} x values {'',x,<0xff>y} = 120 inserts", "stacks": "3 x 1023 init states, depth 1", "query": "5 scopes (incl. unknown process q) x 4 start envs (unset, empty, set, set+others)"}));
+    rep.cov("bound", json!({"insert_depth": depth, "alphabet": "4 scopes x 5 behaviours x names {X,PATH} x values {'','x ' (ends in a space),<0xff>y} = 120 inserts", "stacks": "3 x 1023 init states, depth 1", "query": "5 scopes (process types named `launch` and, unknown, `all`) x 4 start envs (unset, empty, set, set+others)"}));
     let capped = r.cap_hit.clone().or(r2.cap_hit.clone()).or(r3.as_ref().and_then(|x| x.cap_hit.clone()));
     rep.cov("exhaustive", capped.is_none());
     if let Some(c) = &capped {
